@@ -47,12 +47,21 @@ func genProgram(t *rapid.T) (files map[string]string, units []unit, mode int) {
 		p.constructors(nt)
 		p.types = append(p.types, nt)
 	}
+	var zrecv *ty
+	if rapid.IntRange(0, 3).Draw(t, "zeroSizeReceiver") == 0 {
+		zrecv = p.zeroSizeReceiverType()
+		p.constructors(zrecv)
+		p.types = append(p.types, zrecv)
+	}
 	if rapid.IntRange(0, 3).Draw(t, "zeroSizeResults") == 0 {
 		nt := p.zeroSizeResultType()
 		p.constructors(nt)
 		p.types = append(p.types, nt)
 	}
 	for _, nt := range p.types {
+		if !visible(nt, "main") {
+			continue // unexported type of the other package: reached only through the exported types using it
+		}
 		u := unit{t: nt}
 		q := ""
 		if nt.pkg == "lib" {
@@ -66,6 +75,10 @@ func genProgram(t *rapid.T) (files map[string]string, units []unit, mode int) {
 		}
 		sort.Strings(u.feats)
 		units = append(units, u)
+	}
+	if zrecv != nil {
+		pt := &ty{kind: "ptr", elem: zrecv, comp: true}
+		units = append(units, unit{t: pt, feats: []string{"unnamed_ptr", "zero_size_receiver"}, vals: []string{p.value(pt, "main", 0, 0), p.value(pt, "main", 0, 1)}})
 	}
 	// unnamed composites (and plain basics) over the pool
 	for i, n := 0, rapid.IntRange(4, 10).Draw(t, "nunnamed"); i < n; i++ {
@@ -205,6 +218,8 @@ func TestC15Programs(t *testing.T) {
 				unitKey = "C15:named-func-type"
 			} else if funcTop(u.t) {
 				unitKey = "C15:func-value-set-roundtrip"
+			} else if has(u.feats, "zero_size_receiver") {
+				unitKey = "C15:call:nil-pointer-receiver-not-dereferenced"
 			}
 			if unitKey != "" {
 				if c.IsKnown(unitKey) {
@@ -345,12 +360,6 @@ func lineKey(u unit, la, lb string) string {
 		}
 		return false
 	}
-	// gc panics when a promoted value-receiver method is called through a nil embedded pointer; llgo's wrapper
-	// does not dereference the pointer when the method ignores its receiver (root cause listed under C03:
-	// a dereference whose result is unused does not fault)
-	if (strings.Contains(la, " V.call ") || strings.Contains(la, " V.pcall ")) && strings.Contains(la, "call PANIC") && !strings.Contains(lb, "PANIC") && (hasFeat("embedded_pointer") || u.t.kind == "ptr") {
-		return "C15:call:nil-pointer-receiver-not-dereferenced"
-	}
 	// reflect cannot call a function with a zero-size result (libffi rejects the empty aggregate)
 	if (strings.Contains(la, " V.call ") || strings.Contains(la, " V.pcall ")) && strings.Contains(lb, "call PANIC bad type def") && hasFeat("zero_size_result_method") {
 		return "C15:call:zero-size-result"
@@ -384,6 +393,15 @@ func declsOf(files map[string]string, u unit) string {
 		}
 	}
 	return strings.Join(keep, "\n")
+}
+
+func has(l []string, s string) bool {
+	for _, x := range l {
+		if x == s {
+			return true
+		}
+	}
+	return false
 }
 
 func head(l []string, n int) []string {
